@@ -166,9 +166,18 @@ func c17Composite(fallback bool) func(c *sim.RunCtx) {
 							hadFront, hadBack := front.Has(ob.D), back.Has(ob.D)
 							var data []byte
 							var err error
+							// a third of the reads are composite reads whose slicer hands
+							// back the whole parent: the same statements apply to them
+							get := func() buffer.Buffer {
+								if (o[1]+2*oi)%3 == 0 {
+									c.Count("probe_composite_read", 1)
+									return ba.GetFromComposite(ctx, ob.D, ob.D, &c13IdentitySlicer{})
+								}
+								return ba.Get(ctx, ob.D)
+							}
 							if (o[1]+oi)%2 == 1 {
 								// consumed the way ByteStream does: chunk by chunk to the end
-								r := ba.Get(ctx, ob.D).ToChunkReader(0, 1+o[1]%3)
+								r := get().ToChunkReader(0, 1+o[1]%3)
 								for {
 									chunk, rerr := r.Read()
 									if rerr == io.EOF {
@@ -182,7 +191,7 @@ func c17Composite(fallback bool) func(c *sim.RunCtx) {
 								}
 								r.Close()
 							} else {
-								data, err = ba.Get(ctx, ob.D).ToByteSlice(1 << 20)
+								data, err = get().ToByteSlice(1 << 20)
 							}
 							faulted := injected > inj0
 							if err == nil {
